@@ -35,7 +35,9 @@ from coqfmt import *  # noqa
 FILES = ['chython/algorithms/morgan.py', 'chython/algorithms/smiles.py', 'chython/algorithms/rings.py',
          'chython/algorithms/fingerprints/linear.py', 'chython/algorithms/fingerprints/morgan.py',
          'chython/algorithms/isomorphism.py', 'chython/containers/graph.py', 'chython/_functions.py',
-         'chython/periodictable/base/element.py']
+         'chython/periodictable/base/element.py',
+         # not an anchor of the property: audited because the differential runs found a seed dependence here
+         'chython/algorithms/standardize/reaction.py']
 
 ORDER_FUNCS = {'min', 'max', 'sorted', 'next', 'iter', 'list', 'tuple', 'deque', 'enumerate', 'zip', 'reversed', 'map',
                'filter', 'sum', 'array', 'islice', 'chain', 'product', 'permutations', 'combinations', 'groupby'}
